@@ -1,4 +1,5 @@
 import CollectionsC.Proofs.TreeTableSpec
+import CollectionsC.Proofs.TreeSet
 import CollectionsC.Driver.TreeTable
 /-! # C03 — CC_TreeTable / CC_TreeSet are exact ordered maps / sets
 
@@ -100,6 +101,18 @@ theorem new_history_refines (ho : TotalOrder cmp) (m0 m1 : Mem) (t0 : TreeTable)
   have := history_refines ho ops t0 hi m1 (by omega)
   rw [ha] at this
   exact ⟨this.1, this.2.1, this.2.2.1, this.2.2.2.1⟩
+
+/-- `destroy` releases exactly the blocks the table owns (every node, the sentinel, the header):
+together with `new_inv` and the ledger clause of `history_refines`, a session
+`new; …; destroy` ends with the ledger it started with (C06 tree part) -/
+theorem destroy_ledger (t : TreeTable) (h : t.Inv cmp) (m : Mem) (hm : t.size + 2 ≤ m.live) :
+    (t.destroy m).live + t.size + 2 = m.live ∧ (t.destroy m).fault = m.fault := by
+  have a := TreeTable.freeN_spec t.root.size m (by rw [← h.2.2]; omega)
+  have b := TreeTable.free_spec (TreeTable.freeN m t.root.size) (by rw [a.1, ← h.2.2]; omega)
+  have c := TreeTable.free_spec (TreeTable.freeN m t.root.size).free (by rw [b.1, a.1, ← h.2.2]; omega)
+  unfold TreeTable.destroy
+  rw [c.1, c.2, b.1, b.2, a.1, a.2, ← h.2.2]
+  exact ⟨by omega, rfl⟩
 
 /-! ## Iterator (`iter_init`, `iter_next`, `iter_remove`) -/
 
@@ -233,6 +246,74 @@ theorem rejected_inert (ho : TotalOrder cmp) (t : TreeTable) (h : t.Inv cmp) (op
     (t.step cmp op m).2.1 = t ∧ (t.step cmp op m).2.2.1 = m :=
   let s := step_refines ho t h op m hm
   ⟨(s.inert st hst h1).1, (s.inert st hst h1).2 h2⟩
+
+/-! ## CC_TreeSet -/
+
+/-- **One call of the set API**: status, callback sequence and out-value of the ideal ordered set
+(the out-value of `cc_treeset_remove` is the dummy the table stores, see `TreeSet.StepOK.val`), the
+abstraction commutes, the invariant (the table's, and "all values are the dummy") is preserved, no
+fault, balanced ledger, comparator budget. -/
+theorem set_step_refines (ho : TotalOrder cmp) (s : TreeSet) (h : s.Inv cmp) (op : OrdSet.Op) (m : Mem)
+    (hm : s.t.size + 2 ≤ m.live) : TreeSet.StepOK cmp s op m :=
+  TreeSet.step_ok ho h op m hm
+
+/-- **All histories of set calls**: statuses and callback sequences are those of the ideal ordered
+set, the final content is the ideal set's, invariant / fault-freedom / ledger balance / comparator
+budget as for the table. -/
+theorem set_history_refines (ho : TotalOrder cmp) (ops : List (OrdSet.Op × List Bool)) (s : TreeSet)
+    (h : s.Inv cmp) (m : Mem) (hm : s.t.size + 2 ≤ m.live) :
+    (s.run cmp ops m).1.map (fun o => (o.st, o.log)) =
+      (OrdSet.run cmp s.t.abs (ops.map fun p => (p.1, refusedOf p.2))).1.map (fun o => (o.st, o.log)) ∧
+    (s.run cmp ops m).2.2.1.t.abs = (OrdSet.run cmp s.t.abs (ops.map fun p => (p.1, refusedOf p.2))).2 ∧
+    (s.run cmp ops m).2.2.1.Inv cmp ∧
+    (s.run cmp ops m).2.2.2.fault = m.fault ∧
+    (s.run cmp ops m).2.2.2.live + s.t.size = m.live + (s.run cmp ops m).2.2.1.t.size ∧
+    ∀ p ∈ (s.run cmp ops m).2.1, p.2 ≤ 2 * Nat.log2 (p.1 + 1) + 2 := by
+  induction ops generalizing s m with
+  | nil => exact ⟨rfl, rfl, h, rfl, rfl, fun _ hp => by simp [TreeSet.run] at hp⟩
+  | cons x ops ih =>
+    obtain ⟨op, sched⟩ := x
+    have hm' : s.t.size + 2 ≤ (m.begin sched).live := hm
+    have k := set_step_refines ho s h op (m.begin sched) hm'
+    have hl := k.ledger
+    have hlive : (m.begin sched).live = m.live := rfl
+    have ih' := ih (s.step cmp op (m.begin sched)).2.1 k.inv (s.step cmp op (m.begin sched)).2.2.1 (by omega)
+    obtain ⟨a, b, c, d, e, f⟩ := ih'
+    rw [k.abs, begin_alloc] at a b
+    simp only [TreeSet.run, OrdSet.run, List.map_cons]
+    refine ⟨?_, b, c, by rw [d, k.nofault]; rfl, by omega, ?_⟩
+    · rw [a, k.st, k.log, begin_alloc]
+    · intro p hp
+      rcases List.mem_cons.1 hp with rfl | hp
+      · exact k.cmps
+      · exact f p hp
+
+/-- the set constructor: three blocks (set header, table header, sentinel), all released again when
+any of the requests is refused -/
+theorem set_new_inv (m0 : Mem) :
+    (∀ s m1, TreeSet.new m0 = (.ok, some s, m1) →
+        s.Inv cmp ∧ s.t.abs = [] ∧ m1.live = m0.live + 3 ∧ m1.fault = m0.fault) ∧
+    ((TreeSet.new m0).1 = .ok ∨ (TreeSet.new m0).1 = .errAlloc) ∧
+    ((TreeSet.new m0).1 = .errAlloc → (TreeSet.new m0).2.1 = none ∧
+        (TreeSet.new m0).2.2.live = m0.live ∧ (TreeSet.new m0).2.2.fault = m0.fault) := by
+  unfold TreeSet.new TreeTable.new; dsimp only
+  cases h1 : m0.alloc.1 <;> simp only [Bool.not_false, Bool.not_true, if_true]
+  · have := Mem.alloc_fst_false m0 h1
+    simp [this]
+  · have e1 := Mem.alloc_fst_true m0 h1
+    cases h2 : m0.alloc.2.alloc.1 <;> simp only [Bool.not_false, Bool.not_true, if_true]
+    · have e2 := Mem.alloc_fst_false m0.alloc.2 h2
+      simp [Mem.free, e1, e2]
+    · have e2 := Mem.alloc_fst_true m0.alloc.2 h2
+      cases h3 : m0.alloc.2.alloc.2.alloc.1 <;> simp only [Bool.not_false, Bool.not_true, if_true]
+      · have e3 := Mem.alloc_fst_false m0.alloc.2.alloc.2 h3
+        simp [Mem.free, e1, e2, e3]
+      · have e3 := Mem.alloc_fst_true m0.alloc.2.alloc.2 h3
+        simp only [Bool.false_eq_true, if_false, Prod.mk.injEq, Option.some.injEq, true_and, and_imp,
+          reduceCtorEq, or_false, false_implies, and_true]
+        intro s m1 hs hm; subst hs; subst hm
+        exact ⟨⟨⟨List.Pairwise.nil, ⟨trivial, rfl⟩, rfl⟩, fun e he => by simp at he⟩, rfl, by omega,
+          by rw [e3.2.1, e2.2.1, e1.2.1]⟩
 
 /-! ## The comparators of the harness are total orders -/
 open CC.Driver.TreeTableD (cmpOf) in
